@@ -439,7 +439,7 @@ def g_fields(fields, ctr):
                 g_bool(bool(nd["fd"].get("flag"))))
         if nd["t"] == "sub":
             return "(%s,(NSub %s %s %s))" % (g_str(k), g_bool(nd["dyn"]), g_list(nd["vals"], g_n), g_fields(nd["fields"], ctr))
-        return "(%s,(NCfgList %s %s %s))" % (g_str(k), g_bool(nd["required"]), g_list(nd["vals"], g_n), g_fields(nd["fields"], ctr))
+        return "(%s,(NCfgList %s %s %s None))" % (g_str(k), g_bool(nd["required"]), g_list(nd["vals"], g_n), g_fields(nd["fields"], ctr))
     return g_list(fields, one)
 
 
@@ -553,7 +553,9 @@ def gcase(c):
     tab = g_list(regex_table(c), lambda e: "(%s,%s,%s)" % (g_str(e[0]), g_str(e[1]), g_bool(e[2])))
     vt = g_list(c["vt"], lambda v: "(%s,(%s,%s))" % (g_n(v[0]), g_str(v[1]), g_str(v[2])))
     kw = g_list(c["kw"].items(), lambda kv: "(%s,%s)" % (g_str(kv[0]), gal(kv[1])))
-    ops = g_list(c["ops"], lambda po: "(%s,%s)" % (CO.g_ps(po[0]), CO.g_op(po[1])))
+    # plain operations only (wrapped: the history type of Config.v also has side-built configuration objects, which this
+    # stream does not generate -- its leaves carry field identities that a separately printed source schema would not share)
+    ops = g_list(c["ops"], lambda po: "(%s,(XOp %s))" % (CO.g_ps(po[0]), CO.g_op(po[1])))
     um = "(Some %s)" % gal(c["_obs"]) if may_unmodelled(c) else "None"
     return "(%s, %s, %s, %s, %s, %s, %s, %s)" % (tab, vt, g_bool(c["dyn"]), g_list(c["vals"], g_n),
                                                  "cf_mx_fs" if c.get("kind", "").startswith("matrix") else g_fields(c["fields"], [1]),
